@@ -378,12 +378,12 @@ sts_cbc(Source *source, Sink *sink)
 {
     unsigned char buf;
 
-    const int rc = source_get_octet(source, &buf);
+    const ssize_t rc = source_get_chunk(source, &buf, 1u);
     if (rc < 0) {
-        return (ssize_t)rc;
+        return rc;
     }
 
-    return sink_put_octet(sink, buf);
+    return sink_put_chunk(sink, &buf, 1u);
 }
 
 ssize_t
